@@ -131,6 +131,7 @@ func (ex *Exec) rangeMap(st *State, s *ast.RangeStmt, label string, k func(*Stat
 		fr.vars[visObj] = Val{T: fmt.Sprintf("((as const (Array %s Bool)) false)", ks.Name), S: visSort}
 		fr.names[visObj.Name()] = visObj
 		ki := ex.mapKeys(st, mt)
+		domSel := sSel(st.heap[ki[0].key], m.T) // the map's key set at loop entry (m != nil)
 		dom0 := ex.w.define("rangedom", visSort, sIte(sEq(m.T, "nil"), fmt.Sprintf("((as const (Array %s Bool)) false)", ks.Name), sSel(st.heap[ki[0].key], m.T)))
 		var keyObj, valObj types.Object
 		pick := func(e ast.Expr) types.Object {
@@ -165,7 +166,7 @@ func (ex *Exec) rangeMap(st *State, s *ast.RangeStmt, label string, k func(*Stat
 		lp.condFn = func(st *State, kt, kf func(*State)) {
 			vis := st.frame.vars[visObj]
 			// exit when every key of the entry domain has been visited
-			allVisited := fmt.Sprintf("(forall ((kk %s)) (! (=> (select %s kk) (select %s kk)) :pattern ((select %s kk))))", ks.Name, dom0, vis.T, vis.T)
+			allVisited := fmt.Sprintf("(forall ((kk %s)) (! (=> (select %s kk) (select %s kk)) :pattern ((select %s kk)) :pattern ((select %s kk))))", ks.Name, dom0, vis.T, vis.T, domSel)
 			if sEq(m.T, "nil") == "(= nil nil)" {
 				kf(st)
 				return
